@@ -2,6 +2,7 @@ import Coraza.Model.TfChain
 import Coraza.Model.Transformations
 import Coraza.Model.UrlDecodeUni
 import Coraza.Model.Transformations2
+import Coraza.Model.Transformations3
 /-! Driver engine `tf`: `tf <name> <in> => <out> <changed> <err>` -/
 namespace Driver.Tf
 open Coraza Coraza.Tf
@@ -19,6 +20,13 @@ def run (name : String) (x : Bytes) : Option Res :=
   | "removecommentschar" => some (removeCommentsChar x)
   | "compresswhitespace" => if allAscii x then some (compressWhitespace x) else Option.none
   | "removewhitespace" => if allAscii x then some (removeWhitespace x) else Option.none
+  | "escapeseqdecode" => some (escapeSeqDecode x)
+  | "cssdecode" => some (cssDecode x)
+  | "removecomments" => some (removeComments x)
+  | "replacecomments" => some (replaceComments x)
+  | "base64encode" => some (base64Encode x)
+  | "base64decode" => some (base64Decode x)
+  | "base64decodeext" => some (base64DecodeExt x)
   | "hexencode" => some (hexEncode x)
   | "hexdecode" => some (hexDecode x)
   | "removenulls" => some (removeNulls x)
